@@ -11,9 +11,11 @@ CIPHERS = [9, 7, 8, 2, 3, 4, 11, 12, 13]          # AES256 AES128 AES192 3DES CA
 S2K_HASHES = [8, 2, 10, 9, 11, 1, 3]
 ENC_KEYS = ['cv25519-0', 'ecdh-p256-0', 'ecdh-p384-0', 'ecdh-p521-0', 'ecdh-k256-0', 'rsa1024-0', 'rsa2048-2', 'cv25519-publead0',
             'cv25519-seclead0', 'ecdh-p521-ylead0', 'rsa1024-1', 'rsa3072-5',
+            # RSA moduli whose length is not a multiple of 8 bits: the ciphertext integer is often one octet shorter than the modulus
+            'rsa2041-0', 'rsa1031-0',
             # the same ECDH keys carrying KDF parameters other than PGPy's per-curve defaults (as GnuPG-made keys do)
             'ecdh-p384-0@9,9', 'ecdh-p256-0@10,9', 'cv25519-1@8,9', 'ecdh-p521-0@10,7', 'ecdh-k256-0@8,8', 'cv25519-0@10,8']
-FAST_ENC_KEYS = [k for k in ENC_KEYS if not k.startswith('rsa2048') and not k.startswith('rsa3072')]
+FAST_ENC_KEYS = [k for k in ENC_KEYS if not k.startswith('rsa2048') and not k.startswith('rsa3072')]      # (rsa2041 stays: it is the point of having it)
 PASSPHRASES = ['correct horse', 'pässwörd ü', 'x', 'p' * 300, ' leading and trailing ', 'line\nbreak']
 PRIMARY = 'ed25519-0'
 
